@@ -66,6 +66,7 @@ func genFunction(u *Universe, pi *PkgInfo, fc *FuncContract) (res *VerifyResult)
 
 func runFunction(vc *VC, u *Universe, pi *PkgInfo, fc *FuncContract, fn *ssa.Function, comps map[string]string) map[string]string {
 	x := &Exec{vc: vc}
+	vc.target = fn
 	m := vc.mode
 	st := State{H: map[string]*Term{}, Reach: TTrue}
 	for _, k := range sortedKeys(comps) {
@@ -137,19 +138,25 @@ func runFunction(vc *VC, u *Universe, pi *PkgInfo, fc *FuncContract, fn *ssa.Fun
 		post := &CEnv{x: x, fr: fr, st: &fin, old: &fr.entry, pkg: pi, mode: m, vars: env.vars, hasResult: true, result: res, sig: fn.Signature, goal: true, ghostsOK: true}
 		// cover: some return reachable
 		vc.obls = append(vc.obls, &Obl{Name: vc.fnName + "#cover.ret", Kind: "cover", Goal: Not(fin.Reach), N: len(vc.items), Desc: "a normal return is reachable", Fn: vc.fnName, VC: vc, Expect: "sat", Pos: x.posOf(fn, fn.Pos())})
-		var splits []*Term
-		for _, sh := range fc.Splits {
-			e := env.eval(sh.Expr).X
-			for v := sh.Lo; v <= sh.Hi; v++ {
-				splits = append(splits, Eq(e, m.lit(bigInt(v), IntTy{64, true})))
+		splitsFor := func(tag string) []*Term {
+			var splits []*Term
+			for _, sh := range fc.Splits {
+				if sh.Tag != "" && sh.Tag != tag {
+					continue
+				}
+				e := env.eval(sh.Expr).X
+				for v := sh.Lo; v <= sh.Hi; v++ {
+					splits = append(splits, Eq(e, m.lit(bigInt(v), IntTy{64, true})))
+				}
 			}
+			return splits
 		}
 		for k, en := range fc.Ensures {
 			g := post.evalBool(en.Expr)
 			o := vc.oblige("post", Implies(fin.Reach, g), x.posOf(fn, fn.Pos()), fmt.Sprintf("postcondition %d: %s", k+1, en.Src))
 			o.Clause = en.Src
 			o.Slow = en.Slow
-			o.Splits = splits
+			o.Splits = splitsFor(en.Tag)
 			if en.Tag != "" {
 				o.Name = vc.fnName + "#post." + en.Tag
 			}
@@ -191,7 +198,13 @@ func (x *Exec) havocParam(st *State, t types.Type, name string) Value {
 	for _, l := range m.flatten(t) {
 		s := x.vc.decl(name+l.Suffix, l.Sort)
 		ls = append(ls, s)
-		x.vc.inputSyms = append(x.vc.inputSyms, InputSym{Param: name, Path: l.Suffix, Sym: s.Op})
+		isBytes := false
+		if sl, ok := t.Underlying().(*types.Slice); ok {
+			if b, ok := sl.Elem().Underlying().(*types.Basic); ok && b.Kind() == types.Uint8 {
+				isBytes = true
+			}
+		}
+		x.vc.inputSyms = append(x.vc.inputSyms, InputSym{Param: name, Path: l.Suffix, Sym: s.Op, ByteSlice: isBytes})
 	}
 	v, _ := m.fromLeaves(t, ls)
 	x.assumeTypeInv(st, v)
